@@ -235,7 +235,8 @@ class World(object):
                     if world.io_yield and s_ is not None and not s_.is_async and sched.current_name() in s_.th:
                         s_.boundary('io', lambda: True)
                     return io.BytesIO.read(self, n)
-            return lambda: d.push(YieldIO(bytes(range(40))), '/p', mtime=5)
+            ti = self.threads.index(t)
+            return lambda: d.push(YieldIO(bytes((x * (ti + 3) + ti) % 251 for x in range(40))), '/p', mtime=5)
         raise AssertionError('no public operation has the shape %r' % (p,))
 
     async def start(self):
@@ -408,6 +409,18 @@ async def run_schedule(mode, prog, replies, pick, ridbase=10, max_steps=4000, li
     w = World(mode, prog, replies, ridbase, lid0=lid0)
     w.gate.write_yield = write_yield
     w.io_yield = write_yield
+    if write_yield and mode == 'async' and hasattr(w.module, '_AsyncBytesIO'):
+        # reading the local source is an await point of the async class whenever the source is a real file (aiofiles):
+        # give the in-memory source the same suspension point during exploration
+        orig_read = w.module._AsyncBytesIO.read
+
+        async def read(self_, size=-1, _orig=orig_read):
+            s_ = _holder['sched']
+            if s_ is not None and s_.is_async and sched.current_name() in s_.th:
+                await s_.aboundary('io', lambda: True)
+            return await _orig(self_, size)
+        w.module._AsyncBytesIO.read = read
+        w._restore_read = orig_read
     w.line_yield = line_yield and mode == 'sync'
     w.op_plain = w.op
     w.op = lambda t: _wrap_op(w, t, w.op_plain(t), api_name(prog[t]))
@@ -443,6 +456,8 @@ async def run_schedule(mode, prog, replies, pick, ridbase=10, max_steps=4000, li
         stuck = [t for t in w.threads if not w.sched.th[t].done]
     finally:
         await w.stop()
+        if getattr(w, '_restore_read', None) is not None:
+            w.module._AsyncBytesIO.read = w._restore_read
     # finish the trace: name shell results as payload units, mark stuck operations
     lid_of = {}
     tr = []
@@ -467,7 +482,10 @@ async def run_schedule(mode, prog, replies, pick, ridbase=10, max_steps=4000, li
         tr.append(f)
     for t in stuck:
         tr.append(dict(ev='stuck', t=t))
-    return tr, dict(stuck=stuck, schedule=sched_log, results={t: w.results.get(t) for t in w.threads}, lids=dict(w.lids))
+    pushed = {}
+    for rec_ in w.dev.fs.pushed:
+        pushed.setdefault(rec_.get('lid'), []).append((bytes(rec_['spec']), b''.join(rec_['chunks']), bool(rec_.get('failed'))))
+    return tr, dict(stuck=stuck, schedule=sched_log, results={t: w.results.get(t) for t in w.threads}, lids=dict(lid_of), pushed=pushed)
 
 
 def explore(mode, prog, replies, n, rng, ridbase=10, lid0=None, write_yield=False, line_yield=False):
@@ -477,8 +495,22 @@ def explore(mode, prog, replies, n, rng, ridbase=10, lid0=None, write_yield=Fals
         for i in range(n):
             sticky = rng.choice([0.0, 0.5, 0.8, 0.95])
             last = [None]
+            use_pct = rng.random() < 0.5
+            actors = sorted(prog) + ['dev']
+            prio = {a: p_ for p_, a in enumerate(rng.sample(actors, len(actors)))}
+            change = set(rng.sample(range(1, 120), rng.randint(0, 3)))
+            stepno = [0]
 
             def pick(en):
+                stepno[0] += 1
+                if use_pct:
+                    # PCT-style: run the enabled actor of highest priority; at a few random points the running actor drops to the bottom
+                    def actor(c):
+                        return c[1] if c[0] == 't' else 'dev'
+                    best = max(en, key=lambda c: (prio[actor(c)], rng.random()))
+                    if stepno[0] in change:
+                        prio[actor(best)] = min(prio.values()) - 1
+                    return best
                 if last[0] in en and rng.random() < sticky:
                     return last[0]
                 c = en[rng.randrange(len(en))]
